@@ -115,3 +115,155 @@ package udpip
 //@   loop 4 invariant 0 <= (rangeindex+1) && (rangeindex+1) <= numReusable && 0 <= numReusable && numReusable <= batchSize && len(packets) == batchSize
 //@   loop 4 invariant forall j int :: batchSize-numReusable+(rangeindex+1) <= j && j < batchSize ==> router.owned[packets[j]]
 //@   loop 4 invariant forall j int, k int :: batchSize-numReusable+(rangeindex+1) <= j && j < k && k < batchSize ==> packets[j] != packets[k]
+
+//@ # ---- C14: the links. Send gives the packet to the egress queue or refuses it; receive gives it to a processor
+//@ # queue or back to the pool; nothing else happens to it.
+//@ macro sendOwn(p) = (router.owned[p] == !result && router.heldCount == old(router.heldCount) - ite(result, 1, 0))
+//@ func (*connectedLink).Send
+//@   props C14
+//@   nosafety
+//@   requires router.owned[p]
+//@   onsend requires router.owned[v]
+//@   onsend gset router.owned[v] := false
+//@   onsend gset router.heldCount := router.heldCount - 1
+//@   modifies router.owned[p], router.heldCount
+//@   ensures sendOwn(p)
+//@ func (*detachedLink).Send
+//@   props C14
+//@   nosafety
+//@   requires router.owned[p]
+//@   onsend requires router.owned[v]
+//@   onsend gset router.owned[v] := false
+//@   onsend gset router.heldCount := router.heldCount - 1
+//@   modifies router.owned[p], router.heldCount, p.RemoteAddr
+//@   ensures sendOwn(p)
+//@ func (*internalLink).Send
+//@   props C14
+//@   nosafety
+//@   requires router.owned[p]
+//@   onsend requires router.owned[v]
+//@   onsend gset router.owned[v] := false
+//@   onsend gset router.heldCount := router.heldCount - 1
+//@   modifies router.owned[p], router.heldCount
+//@   ensures sendOwn(p)
+//@ func (*connectedLink).SendBlocking
+//@   props C14
+//@   nosafety
+//@   requires router.owned[p]
+//@   onsend requires router.owned[v]
+//@   onsend gset router.owned[v] := false
+//@   onsend gset router.heldCount := router.heldCount - 1
+//@   modifies router.owned[p], router.heldCount
+//@   ensures !router.owned[p] && router.heldCount == old(router.heldCount) - 1
+//@ func (*detachedLink).SendBlocking
+//@   props C14
+//@   nosafety
+//@   requires router.owned[p]
+//@   onsend requires router.owned[v]
+//@   onsend gset router.owned[v] := false
+//@   onsend gset router.heldCount := router.heldCount - 1
+//@   modifies router.owned[p], router.heldCount, p.RemoteAddr
+//@   ensures !router.owned[p] && router.heldCount == old(router.heldCount) - 1
+//@ func (*internalLink).SendBlocking
+//@   props C14
+//@   nosafety
+//@   requires router.owned[p]
+//@   onsend requires router.owned[v]
+//@   onsend gset router.owned[v] := false
+//@   onsend gset router.heldCount := router.heldCount - 1
+//@   modifies router.owned[p], router.heldCount
+//@   ensures !router.owned[p] && router.heldCount == old(router.heldCount) - 1
+//@ func (*connectedLink).receive
+//@   props C14
+//@   nosafety
+//@   opaque computeProcID
+//@   callmod computeProcID: nothing
+//@   requires router.owned[p] && l != nil
+//@   onsend requires router.owned[v]
+//@   onsend gset router.owned[v] := false
+//@   onsend gset router.heldCount := router.heldCount - 1
+//@   modifies router.owned[p], router.heldCount, p.Link
+//@   ensures !router.owned[p] && router.heldCount == old(router.heldCount) - 1
+//@ func (*detachedLink).receive
+//@   props C14
+//@   nosafety
+//@   opaque computeProcID
+//@   callmod computeProcID: nothing
+//@   requires router.owned[p] && l != nil
+//@   onsend requires router.owned[v]
+//@   onsend gset router.owned[v] := false
+//@   onsend gset router.heldCount := router.heldCount - 1
+//@   modifies router.owned[p], router.heldCount, p.Link
+//@   ensures !router.owned[p] && router.heldCount == old(router.heldCount) - 1
+//@ func (*internalLink).receive
+//@   props C14
+//@   nosafety
+//@   opaque computeProcID
+//@   callmod computeProcID: nothing
+//@   requires router.owned[p] && l != nil
+//@   onsend requires router.owned[v]
+//@   onsend gset router.owned[v] := false
+//@   onsend gset router.heldCount := router.heldCount - 1
+//@   modifies router.owned[p], router.heldCount, p.Link, p.RemoteAddr
+//@   ensures !router.owned[p] && router.heldCount == old(router.heldCount) - 1
+//@ # the internal link's processor: same discipline as the router's processors, including the drain at shutdown
+//@ func (*internalLink).runProcessor
+//@   props C14
+//@   nosafety
+//@   opaque (*internalLink).processPacket
+//@   callmod (*internalLink).processPacket: *a1
+//@   requires l != nil && router.heldCount == 0
+//@   requires forall q *router.Packet :: !router.owned[q]
+//@   onrecv assume v != nil && !router.owned[v]
+//@   onrecv gset router.owned[v] := true
+//@   onrecv gset router.heldCount := router.heldCount + 1
+//@   loop 1 invariant router.heldCount == 0
+//@   loop 1 invariant forall q *router.Packet :: !router.owned[q]
+//@   loop 2 invariant router.heldCount == 0
+//@   loop 2 invariant forall q *router.Packet :: !router.owned[q]
+//@   ensures router.heldCount == 0
+//@ # ---- C14: the send loop. readUpTo acquires what it takes from the queue; every packet written - and the one
+//@ # dropped after a partial write - goes back to the pool exactly once; the leftovers are kept, shifted to the front.
+//@ func readUpTo
+//@   props C14
+//@   nosafety
+//@   requires 0 <= n && n <= len(pkts) && (needsBlocking ==> n >= 1)
+//@   onrecv assume v != nil && !router.owned[v]
+//@   onrecv gset router.owned[v] := true
+//@   onrecv gset router.heldCount := router.heldCount + 1
+//@   modifies router.owned, router.heldCount, pkts[:]
+//@   loop 1 invariant 0 <= i && i <= n && router.heldCount == old(router.heldCount) + i
+//@   loop 1 invariant forall j int :: 0 <= j && j < i ==> router.owned[pkts[j]] && !old(router.owned)[pkts[j]]
+//@   loop 1 invariant forall j int, k int :: 0 <= j && j < k && k < i ==> pkts[j] != pkts[k]
+//@   loop 1 invariant forall q *router.Packet :: old(router.owned[q]) ==> router.owned[q]
+//@   ensures 0 <= result && result <= n && router.heldCount == old(router.heldCount) + result
+//@   ensures forall j int :: 0 <= j && j < result ==> router.owned[pkts[j]] && !old(router.owned)[pkts[j]]
+//@   ensures forall j int, k int :: 0 <= j && j < k && k < result ==> pkts[j] != pkts[k]
+//@   ensures forall q *router.Packet :: old(router.owned[q]) ==> router.owned[q]
+//@ iface router.BatchConn.WriteBatch
+//@   modifies nothing
+//@   ensures result0 <= len(arg0)
+//@ func (*udpConnection).send
+//@   props C14
+//@   nosafety
+//@   opaque github.com/scionproto/scion/router.UpdateOutputMetrics
+//@   callmod github.com/scionproto/scion/router.UpdateOutputMetrics: nothing
+//@   requires batchSize > 0 && batchSize <= 65536 && router.heldCount == 0
+//@   requires forall q *router.Packet :: !router.owned[q]
+//@   loop 1 invariant router.heldCount == 0 && len(pkts) == batchSize && len(msgs) == batchSize
+//@   loop 1 invariant forall q *router.Packet :: !router.owned[q]
+//@   loop 2 invariant 0 <= toWrite && toWrite <= batchSize && len(pkts) == batchSize && len(msgs) == batchSize && router.heldCount == toWrite
+//@   loop 2 invariant forall j int :: 0 <= j && j < toWrite ==> router.owned[pkts[j]]
+//@   loop 2 invariant forall j int, k int :: 0 <= j && j < k && k < toWrite ==> pkts[j] != pkts[k]
+//@   loop 3 invariant 0 <= (rangeindex+1)
+//@   loop 4 invariant 0 <= (rangeindex+1) && (rangeindex+1) <= written && written <= toWrite__now && toWrite__now <= batchSize && len(pkts) == batchSize
+//@   loop 4 invariant router.heldCount == toWrite__now - (rangeindex+1)
+//@   loop 4 invariant forall j int :: (rangeindex+1) <= j && j < toWrite__now ==> router.owned[pkts[j]]
+//@   loop 4 invariant forall j int, k int :: (rangeindex+1) <= j && j < k && k < toWrite__now ==> pkts[j] != pkts[k]
+//@   loop 5 invariant 0 <= rangeint_iter && rangeint_iter < toWrite__now && 0 <= written && toWrite__now+written+1 <= batchSize && len(pkts) == batchSize && len(msgs) == batchSize
+//@   loop 5 invariant router.heldCount == toWrite__now
+//@   loop 5 invariant forall j int :: 0 <= j && j < rangeint_iter ==> router.owned[pkts[j]]
+//@   loop 5 invariant forall j int :: rangeint_iter+written+1 <= j && j < toWrite__now+written+1 ==> router.owned[pkts[j]]
+//@   loop 5 invariant forall j int, k int :: 0 <= j && j < k && k < rangeint_iter ==> pkts[j] != pkts[k]
+//@   loop 5 invariant forall j int, k int :: rangeint_iter+written+1 <= j && j < k && k < toWrite__now+written+1 ==> pkts[j] != pkts[k]
+//@   loop 5 invariant forall j int, k int :: 0 <= j && j < rangeint_iter && rangeint_iter+written+1 <= k && k < toWrite__now+written+1 ==> pkts[j] != pkts[k]
